@@ -656,6 +656,7 @@ def _valid_pair(ref, est):
         if not h:
             return False
         for lv in h:
+            lv = sorted(tuple(r) for r in lv)       # the rows of a level need not be listed in time order
             if not lv or lv[0][0] != 0:
                 return False
             for (a, b), (c, d) in zip(lv[:-1], lv[1:]):
@@ -791,12 +792,29 @@ def _oracle_hier_pair(rng):
     return fs, window, tr, beta, ref, est
 
 
+def _shuffle_rows(rng, hier, labels=None):
+    """the same hierarchy with the rows (and labels) of some levels listed out of time order: no validator asks for
+    time order within a level, and the triplet definition does not know about row order"""
+    hier = [list(lv) for lv in hier]
+    labels = None if labels is None else [list(l) for l in labels]
+    for k in range(len(hier)):
+        if rng.random() < 0.6 and len(hier[k]) > 1:
+            idx = list(range(len(hier[k])))
+            rng.shuffle(idx)
+            hier[k] = [hier[k][j] for j in idx]
+            if labels is not None and k < len(labels) and len(labels[k]) == len(idx):
+                labels[k] = [labels[k][j] for j in idx]
+    return hier, labels
+
+
 def gen_tmeasure(rng, tier, shard, nshards, boost):
     n = (80 if tier == "quick" else 500) * boost
     for k in range(n):
         fs, window, tr, beta, ref, est = _oracle_hier_pair(rng)
         if k % 10 == 9:
             fs, window, _ = _fault_params(rng)
+        if k % 5 == 3:
+            ref, est = _shuffle_rows(rng, ref)[0], _shuffle_rows(rng, est)[0]
         yield t_input(ref, est, tr, window, fs, beta)
 
 
@@ -807,7 +825,10 @@ def gen_lmeasure(rng, tier, shard, nshards, boost):
         if k % 10 == 9:
             fs = rng.choice([Fr(0), -fs])
         small = rng.choice([None, 2, 3])
-        yield l_input(ref, gen_labels(rng, ref, small), est, gen_labels(rng, est, small), fs, beta)
+        rl, el = gen_labels(rng, ref, small), gen_labels(rng, est, small)
+        if k % 4 == 2:
+            (ref, rl), (est, el) = _shuffle_rows(rng, ref, rl), _shuffle_rows(rng, est, el)
+        yield l_input(ref, rl, est, el, fs, beta)
 
 
 def check_evaluate(inp):
